@@ -104,6 +104,12 @@ let () =
       let srv = (match cse with CDav _ -> "dav" | CCal _ -> "cal" | CCard _ -> "card" | CPrincipal _ -> "principal") in
       let total = backend_total cse and mal = malformed cse in
       bump ("server_" ^ srv);
+      (match c with
+       | L [_; _; L items] ->
+         (match List.rev items with
+          | L [A "raw"; _; _; _; A d] :: _ -> bump ("delivery_" ^ d)
+          | _ -> bump "delivery_exact")
+       | _ -> ());
       bump ("method_" ^ (let m = string_of_chars r.r_method in if String.length m > 12 || String.length m = 0 then "other" else String.map (fun ch -> if ch >= 'A' && ch <= 'Z' then ch else '_') m));
       bump (match obs with Panicked -> "obs_panic" | Resp (s, _) -> Printf.sprintf "obs_%dxx" (int_of_n s / 100));
       bump (if total then "backend_sane" else "backend_insane");
